@@ -488,6 +488,8 @@ def run(ctx):
         for n in ast.walk(mv.node):
             if isinstance(n, ast.For):
                 sl = n.iter
+                if isinstance(sl, ast.Name) and isinstance(src_names.get(sl.id), ast.Subscript):
+                    sl = src_names[sl.id]   # the remaining cells held in a local
                 if isinstance(sl, ast.Subscript) and isinstance(sl.slice, ast.Slice) and sl.slice.upper is None \
                         and prog.const(sl.slice.lower, mv.module) == 1:
                     for c in ast.walk(n):
